@@ -37,6 +37,10 @@ def body(ctx):
         for queued in (True, False):
             n += run_batch(ctx, prog, combo, queued, viol)
     ctx.extra['paths'] = n
+    # crossing closes: the client's own Channel.Close is in flight when the server closes the channel; the server's CloseOk for it then
+    # arrives for a slot that is already gone and must be ignored - the frame-level obligations of C09, decided here as well
+    import c09
+    c09.body(ctx)
     roles = {}
     for v in viol:
         roles.setdefault(v[0], v)
